@@ -260,14 +260,14 @@ Definition optable : list (N * (N * Z * bool)) := [
 ].
 
 (* numbers of the events that move the code position of the thread that executes them or end it:
-   end=48, goto=52, throw=27, delaythrow=26, delete=18, remove=20, immediateremove=19, killclass=60, removeclass=61 *)
-Definition ev_end : N := 48.
-Definition ev_goto : N := 52.
-Definition ev_throw : N := 27.
-Definition ev_delaythrow : N := 26.
-Definition ev_delete : N := 18.
-Definition ev_remove : N := 20.
-Definition ev_immediateremove : N := 19.
-Definition ev_killclass : N := 60.
-Definition ev_removeclass : N := 61.
+   end=52, goto=56, throw=31, delaythrow=30, delete=22, remove=24, immediateremove=23, killclass=64, removeclass=65 *)
+Definition ev_end : N := 52.
+Definition ev_goto : N := 56.
+Definition ev_throw : N := 31.
+Definition ev_delaythrow : N := 30.
+Definition ev_delete : N := 22.
+Definition ev_remove : N := 24.
+Definition ev_immediateremove : N := 23.
+Definition ev_killclass : N := 64.
+Definition ev_removeclass : N := 65.
 Definition control_events : list N := [ev_end; ev_goto; ev_throw; ev_delaythrow; ev_delete; ev_remove; ev_immediateremove; ev_killclass; ev_removeclass].
